@@ -256,6 +256,78 @@ def crop_model_case(ck, c):
         bad(key, '%d pieces %s' % (len(got), [(str(a_), str(b_)) for a_, b_ in got][:6]), [(str(a_), str(b_)) for a_, b_ in got])
 
 
+def histories_and_near_ends(ck):
+    site = 'svgpathtools/path.py'
+    # (1) a segment that was measured, had a control point reassigned, and is reversed / split / cropped *before* anything else is asked of it
+    for cls, z1, z2 in ((sp.QuadraticBezier, (0j, 40 + 100j, 100 + 0j), (0j, 10 + 20j, 100 + 0j)), (sp.CubicBezier, (0j, 40 + 100j, 80 - 60j, 100 + 0j), (0j, 10 + 60j, 80 - 60j, 100 + 0j)),
+                        (sp.QuadraticBezier, (-1 + 0j, 3 + 4j, 6 + 0j), (-2 + 0j, 3 + 4j, 6 + 0j)), (sp.Line, (0j, 3 + 4j), (0j, 30 + 40j))):
+        names = {2: ('start', 'end'), 3: ('start', 'control', 'end'), 4: ('start', 'control1', 'control2', 'end')}[len(z1)]
+        for first in ('reversed', 'split', 'cropped', 'path.reversed'):
+            sg = cls(*z1)
+            sg.length(), sg.point(0.5)
+            for nm_, w in zip(names, z2):
+                setattr(sg, nm_, w)
+            fresh = cls(*z2)
+            ck.case(fp=('seg-history', cls.__name__, str(z1), first), nontrivial=True)
+            try:
+                if first == 'reversed':
+                    got, want = sg.reversed(), fresh.reversed()
+                elif first == 'split':
+                    got, want = sg.split(0.4)[1], fresh.split(0.4)[1]
+                elif first == 'cropped':
+                    got, want = sg.cropped(0.2, 0.7), fresh.cropped(0.2, 0.7)
+                else:
+                    got, want = sp.Path(sp.Line(-5 - 5j, z2[0]), sg).reversed(), sp.Path(sp.Line(-5 - 5j, z2[0]), fresh).reversed()
+                ok = abs(got.length() - want.length()) <= 1e-9 * want.length() and all(abs(got.point(u) - want.point(u)) <= 1e-9 * 150 for u in (0, 0.3, 0.5, 0.8, 1))
+            except Exception as e:      # noqa
+                ok, got = False, e
+            if not ok:
+                ck.disagree(key='%s.%s/after-reassigning-a-control-point' % (cls.__name__, first), site=site + ':reversed/split/cropped',
+                            what='%s%r measured, control points set to %r, then %s first: %r (length %s), a newly built segment gives %r (length %r)' % (
+                                cls.__name__, z1, z2, first, got, getattr(got, 'length', lambda: '?')() if not isinstance(got, Exception) else '?', want, want.length()),
+                            case={'cls': cls.__name__, 'z1': [str(w) for w in z1], 'z2': [str(w) for w in z2], 'first': first}, expected=repr(want), observed=repr(got), driver='history')
+    # (2) a path that was queried, edited through the list interface, and cropped before anything else is asked of it
+    def base():
+        return sp.Path(sp.Line(0j, 4 + 0j), sp.Line(4 + 0j, 4 + 2j), sp.CubicBezier(4 + 2j, 6 + 2j, 6 + 6j, 4 + 6j), sp.Line(4 + 6j, 0 + 6j))
+    edits = (('append', lambda p: p.append(sp.Line(0 + 6j, -8 + 6j))), ('setitem', lambda p: p.__setitem__(1, sp.Line(4 + 0j, 4 + 2j)) or p.__setitem__(0, sp.Line(-20 + 0j, 4 + 0j))),
+             ('insert', lambda p: p.insert(0, sp.Line(-9 - 9j, 0j))), ('delitem', lambda p: p.__delitem__(3)), ('end=', lambda p: setattr(p, 'end', -12 + 6j)),
+             ('extend', lambda p: p.extend([sp.Line(0 + 6j, 0 + 20j)])), ('pop', lambda p: p.pop()))
+    for ename, edit in edits:
+        for T0, T1 in ((0.1, 0.55), (0.3, 0.9), (0.45, 1.0)):
+            p = base()
+            p.length(), p.point(0.3), p.T2t(0.6), p.cropped(0.2, 0.4)
+            edit(p)
+            ck.case(fp=('path-history', ename, T0, T1), nontrivial=True)
+            fresh = sp.Path(*[type(s_)(*s_.bpoints()) for s_ in p])
+            try:
+                got, want = p.cropped(T0, T1), fresh.cropped(T0, T1)
+                ok = len(got) == len(want) and abs(got.length() - want.length()) <= 1e-9 * want.length() and abs(got.start - want.start) <= 1e-9 * 30 and abs(got.end - want.end) <= 1e-9 * 30
+            except Exception as e:      # noqa
+                ok, got, want = False, e, None
+            if not ok:
+                ck.disagree(key='Path.cropped/first-query-after-%s' % ename, site=site + ':Path.cropped / T2t',
+                            what='path queried, %s, then cropped(%r, %r) first: %r; a newly built path of the same segments gives %r' % (ename, T0, T1, got, want),
+                            case={'edit': ename, 'T0': T0, 'T1': T1}, expected=repr(want), observed=repr(got), driver='history')
+                break
+    # (3) crops that end (start) a hair before (after) the end (start) of a Bezier: no snapping beyond rounding
+    for z in ([0j, 40 + 100j, 100 + 0j], [0j, 40 + 100j, 80 - 60j, 100 + 0j], [3 + 1j, 3 + 1j, 9 + 9j, 12 - 3j]):
+        sg = make(z)
+        n = len(z) - 1
+        for t0, t1 in ((0.25, 1 - 2.0 ** -17), (0.5, 1 - 2.0 ** -20), (0.1, 1 - 1e-6), (2.0 ** -30, 0.5), (1e-9, 0.75), (0.25, 1 - 1e-9)):
+            cr = sg.cropped(t0, t1)
+            ck.case(fp=('near-end-crop', str(z), t0, t1), nontrivial=True)
+            for u in (0.0, 0.5, 1.0):
+                tq = F(t0) + F(u) * (F(t1) - F(t0))
+                ex = sum(F(math.comb(n, i)) * (1 - tq) ** (n - i) * tq ** i * F(int(w.real)) for i, w in enumerate(z))
+                ey = sum(F(math.comb(n, i)) * (1 - tq) ** (n - i) * tq ** i * F(int(w.imag)) for i, w in enumerate(z))
+                exp = complex(float(ex), float(ey))
+                if not (abs(cr.point(u) - exp) <= 1e-11 * 150):
+                    ck.disagree(key='%s.cropped/near-the-ends' % type(sg).__name__, site=site + ':crop_bezier',
+                                what='%r.cropped(%r, %r).point(%r) = %r, point(t0 + u (t1 - t0)) = %r' % (sg, t0, t1, u, cr.point(u), exp),
+                                case={'z': [str(w) for w in z], 't0': t0, 't1': t1}, expected=repr(exp), observed=repr(cr.point(u)), driver='near-ends')
+                    break
+
+
 def run(ck):
     rnd = random.Random(ck.seed)
     quick = ck.tier == 'quick'
@@ -342,6 +414,7 @@ def run(ck):
         ck.tlc('Crop', dcfg % (4, 'LenB'), workers=1, coverage=False, on_case=on_crop, timeout=3000)
         ck.tlc('Crop', dcfg % (5, 'LenC'), workers=1, coverage=False, on_case=on_crop, timeout=3000)
     ck.count('crop_model_cases', stc['n'])
+    histories_and_near_ends(ck)
     # crops shorter than the 1e-8 tolerance of np.isclose that start on a joint: the two normalisations of Path.cropped move the ends past each other
     rect = sp.Path(sp.Line(0j, 6 + 0j), sp.Line(6 + 0j, 6 + 2j), sp.Line(6 + 2j, 2j), sp.Line(2j, 0j))
     for T0, T1, tag in ((0.375, 0.375 + 1e-12, 'from a joint'), (0.5, 1e-12, 'wrap-around ending just after T = 0')):
